@@ -91,6 +91,15 @@ class CallMixin:
                 return self.apply_contract(o.unit, args, kwargs, n, o.bound_self)
             if isinstance(o, ExtCallable):
                 return self.ext_call(o.ext, o.term, args, kwargs, n)
+            if isinstance(o, tuple) and o and o[0] == "objdict.get":
+                # obj.__dict__.get(name, default): the object's OWN attribute or the default
+                a = o[1].addr
+                nm = self.as_str(args[0])
+                dflt = self.to_val(args[1]) if len(args) > 1 else NONE
+                has = self.hread("has", (a, nm))
+                v = self.hread("fld", (a, nm))
+                self.closed(v)
+                return TV("val", z3.If(has, v, dflt))
             raise Unsupported(f"call of {o!r}")
         return self.call_by_pattern(fn, args, kwargs, n, frame, "symbolic callee")
 
